@@ -46,7 +46,7 @@ func checkC09(c *Ctx) error {
 			p = mp.p
 			id = fmt.Sprintf("matrix:%s:%d", mp.name, i%mreps)
 			wasm = wasm && mp.wasmOK
-			prob = 50
+			prob = 75
 		} else {
 			p = gen.Generate(rng, &gen.Config{Off: gates, MainLen: 8 + rng.IntN(12), Wasm: wasm})
 		}
